@@ -331,6 +331,92 @@ def rdp_steps(ctx):
     return mism
 
 
+
+def _fx_proj_fixed(loc):
+    if "stack" in loc and "reduced" in loc and "length" in loc:
+        return {"stack": [[float(c), int(a), int(b)] for c, a, b in loc["stack"]], "reduced": sorted(int(v) for v in loc["reduced"]),
+                "budget": int(loc["length"])}
+    return None
+
+
+def _fx_proj_grdp(loc):
+    if "stack" in loc and "reduced" in loc and "curved" in loc:
+        return {"stack": [[float(c), int(a), int(b)] for c, a, b in loc["stack"]], "reduced": sorted(int(v) for v in loc["reduced"]),
+                "curved": bool(loc["curved"])}
+    return None
+
+
+def _fixed_steps_record(item):
+    import random
+    import kneeliverse.rdp as rdp
+    import kneeliverse.metrics as metrics
+    from harness import curves, monitor, enums
+    cid, seed = item
+    rng = random.Random(seed)
+    P = curves.random_curve(rng, 2, 28) if rng.random() < 0.8 else curves.adversarial()[rng.randrange(19)]
+    n = len(P)
+    kind = rng.choice(["fixed", "grdp"])
+    kw = {"distance": enums.pick(rdp.Distance, rng.choice(["shortest", "perpendicular"])),
+          "order": enums.pick(rdp.Order, rng.choice(["triangle", "area", "segment"]))}
+    if kind == "fixed":
+        k = rng.randrange(0, n + 2)
+        out, val, cnt = monitor.call(rdp.rdp_fixed, (P, k), kw, budget=monitor.quad(n), wall=30, per={"_rdp_fixed": 8 * n + 64},
+                                     snap={"_rdp_fixed": _fx_proj_fixed})
+        loop = "_rdp_fixed"
+    else:
+        k = 0
+        cost = rng.choice(["smape", "rpd", "rmspe", "rmsle", "r2"])
+        t = rng.choice([0.5, 0.1, 0.01, 0.001, 1e-6]) if cost != "r2" else rng.choice([0.5, 0.9, 0.99, 0.99999])
+        out, val, cnt = monitor.call(rdp.grdp, (P, t), dict(kw, cost=enums.pick(metrics.Metrics, cost)), budget=monitor.quad(n), wall=30,
+                                     per={"_grdp": 8 * n + 64}, snap={"_grdp": _fx_proj_grdp})
+        loop = "_grdp"
+    snaps = list(monitor._state["snaps"])
+    if out != "returned":
+        return None
+    # the ordering scores enter TLC as their dense rank among all scores of the call (exact float comparison: the machine
+    # models list.sort on the very values the code sorts)
+    scores = sorted(set(e[0] for s in snaps for e in s["stack"]))
+    rk = {v: i for i, v in enumerate(scores)}
+    for s in snaps:
+        s["stack"] = [[rk[c], a, b] for c, a, b in s["stack"]]
+    return {"id": cid, "n": n, "kind": kind, "k": k, "events": snaps, "final": sorted(int(v) for v in np.asarray(val[0]).tolist()),
+            "_backedges": cnt.get(loop, 0)}
+
+
+def fixed_steps(ctx):
+    """Trace_FixedSteps.tla: action-level trace validation of rdp.rdp_fixed / rdp.grdp against Fixed.tla's own actions."""
+    items = [("fs%d" % k, ctx.seed * 7001 + k) for k in range(200 if ctx.quick else 2000)]
+    rec = [r for r in par.pmap(_fixed_steps_record, items) if r is not None]
+    anchored = [r for r in rec if len(r["events"]) == r["_backedges"]]
+    info = {"calls_recorded": len(rec), "calls_with_snapshots": len(anchored), "loop_iterations_validated": sum(len(r["events"]) + 1 for r in anchored),
+            "kinds": {k: sum(1 for r in anchored if r["kind"] == k) for k in ("fixed", "grdp")},
+            "what": "every iteration of the work loops of rdp._rdp_fixed and rdp._grdp (local priority stack with the scores replaced by "
+                    "their dense rank, retained indices, remaining budget / `curved` flag read from the running frame at each back-edge) "
+                    "must be a FixedStepA / GrdpStepA step of spec/Fixed.tla with the logged arguments - pop the top entry, retain an "
+                    "interior index of it, push the children that still have interior points, stable re-sort; the iteration after the "
+                    "last back-edge must make the loop condition false and FixedEnd / GrdpEnd must yield the returned indices; TLC "
+                    "infers the cost levels behind `curved`; beyond the listed properties, note only"}
+    if len(anchored) < len(rec) // 2:
+        info["skipped"] = "the locals `stack` / `reduced` / `length` / `curved` were not found in the loops' frames (rewritten): not applicable"
+        ctx.extra.setdefault("growth", {})["FixedSteps"] = info
+        return []
+    good = {"id": "s", "n": 6, "kind": "fixed", "k": 4, "events": [{"stack": [[0, 0, 3], [1, 2, 6]], "reduced": [0, 2, 5], "budget": 1}],
+            "final": [0, 2, 3, 5]}
+    goodg = {"id": "s", "n": 6, "kind": "grdp", "k": 0, "events": [{"stack": [[0, 0, 3], [1, 2, 6]], "reduced": [0, 2, 5], "curved": True}],
+             "final": [0, 2, 4, 5]}
+    rej = ctx.trace("Trace_FixedSteps", [{k: r[k] for k in ("id", "n", "kind", "k", "events", "final")} for r in anchored], chunk=400,
+                    selftest=[(good, "ok"), (goodg, "ok"),
+                              (dict(good, final=[0, 1, 2, 5]), "no-machine-step"),          # the last step must refine the TOP entry
+                              (dict(good, events=[dict(good["events"][0], stack=[[1, 2, 6], [0, 0, 3]])]), "no-machine-step"),   # unsorted
+                              (dict(good, events=[dict(good["events"][0], budget=2)]), "no-machine-step"),
+                              (dict(goodg, final=[0, 2, 5]), "no-machine-step")])            # left the loop although curved and stack
+    mism = [{"case": cid, "clause": vs[0][0], "detail": [str(v)[:100] for v in vs[0][1:4]]} for cid, vs in rej.items()]
+    info.update(mismatches=len(mism), first_mismatches=mism[:3])
+    ctx.extra.setdefault("growth", {})["FixedSteps"] = info
+    for m in mism[:3]:
+        print("GROWTH-MISMATCH module=FixedSteps %s" % m)
+    return mism
+
 def _mk_proj(loc):
     if "stack" in loc and "knees" in loc:
         return {"stack": [[int(a), int(b)] for a, b in loc["stack"]], "knees": [int(k) for k in loc["knees"]]}
